@@ -34,17 +34,6 @@ Emits(TT) ==
        /\ Em("lax", "laxf.optic_map_arrow", [optic |-> TJson(TT), f |-> PlainToLax(f)])
        /\ Em("lax", "laxf.optic_map_adapted", [optic |-> TJson(TT), f |-> PlainToLax(f)])
 (* ---- circuits ---- *)
-Perms0(n) == {p \in [1 .. n -> Range0(n)] : RangeOf(p) = Range0(n)}
-\* circuit with the given operation labels and ni inputs; p assigns a node to every consumer slot
-Circuit(labels, ni, p) ==
-  LET coar == [k \in 1 .. Len(labels) |-> Coarity(labels[k])]
-      ar == [k \in 1 .. Len(labels) |-> Arity(labels[k])]
-      toff == PrefixSums(coar)  soff == PrefixSums(ar)
-      n == ni + SumSeq(coar)
-      nout == n - SumSeq(ar)
-  IN OH([i \in 1 .. n |-> 0],
-        [k \in 1 .. Len(labels) |-> Edge(labels[k], [j \in 1 .. ar[k] |-> p[soff[k] + j]], [j \in 1 .. coar[k] |-> ni + toff[k] + j - 1])],
-        Arange(0, ni), [j \in 1 .. nout |-> p[SumSeq(ar) + j]])
 X1(k) == [i \in 1 .. k |-> 2 * i + 1]
 X2(k) == [i \in 1 .. k |-> (250 + 7 * i) % 256]
 Init == stage = 0 /\ kind = "none" /\ f = EmptyOH /\ g = EmptyOH /\ T = NoT
